@@ -87,6 +87,8 @@ class Gen(object):
         self.w = world
         self.actor = 0
         self.hot = []         # slots produced or written by the last two steps (most recent first)
+        self.queue = []       # generator functions to be used for the next steps (macro sequences)
+        self.force = None     # slot the next pick() must return if it qualifies (set by macros)
 
     def note(self, step):
         """Told by the run loop what the step just executed touched (locality bias of pick)."""
@@ -338,6 +340,10 @@ class Gen(object):
         c = allc if pred is None else [i for i in allc if pred(self.w.slots[i].obj)]
         if not c:
             return None, None
+        if self.force is not None:
+            f, self.force = self.force, None
+            if f in c:
+                return allc.index(f), f
         if self.hot and self.p.get('p_hot') and self.rng.random() < self.p['p_hot']:
             hc = [i for i in self.hot if i in c]
             if hc:
@@ -713,13 +719,41 @@ class Gen(object):
                 op['reflected'] = r.random() < 0.3
         return op
 
+    @staticmethod
+    def top_bit(o):
+        """Bit length of the largest magnitude among the codes (0 if not plain integers)."""
+        try:
+            flat = np.asarray(o.val).ravel().tolist()
+            return max([abs(c).bit_length() for c in flat if isinstance(c, int)] or [0])
+        except Exception:
+            return 0
+
     def g_shift(self):
-        k, i = self.pick(self.is_real, prefer=(lambda o: o.n_word <= 40) if self.rng.random() < 0.5 else None)
+        r = self.rng
+        q = r.random()
+        if q < 0.3:
+            # single-bit codes near the top of a wide word: where magnitude estimates are tight
+            prefer = lambda o: self.top_bit(o) >= 40 and bin(int(np.max(np.abs(np.asarray(o.val).astype(object))))).count('1') == 1
+        elif q < 0.65:
+            prefer = lambda o: o.n_word <= 40
+        else:
+            prefer = None
+        k, i = self.pick(self.is_real, prefer=prefer)
         if k is None:
             return self.g_new()
         o = self.w.slots[i].obj
-        return {'op': 'shift', 'slot': self.cands().index(i), 'dir': self.rng.choice('lr'),
-                'n': self.rng.randint(0, min(o.n_word + 2, 61 - min(o.n_word, 52)) if o.n_word < 60 else 2)}
+        maxn = min(o.n_word + 2, 61 - min(o.n_word, 52)) if o.n_word < 60 else 2
+        d = r.choice('lr')
+        n = r.randint(0, maxn)
+        if d == 'l' and r.random() < 0.5:
+            # aim the shifted top bit at a word boundary (own word, the 52-bit domain limit)
+            bl = self.top_bit(o)
+            sb = 1 if o.signed else 0
+            aims = [t - bl for t in (o.n_word - sb - 1, o.n_word - sb, o.n_word - sb + 1, 51 - sb, 52 - sb, 53 - sb)
+                    if 0 <= t - bl <= maxn]
+            if aims:
+                n = r.choice(aims)
+        return {'op': 'shift', 'slot': self.cands().index(i), 'dir': d, 'n': n}
 
     @staticmethod
     def is_nd(o):
@@ -1172,6 +1206,8 @@ class Gen(object):
                 add(2, self.g_cb_attach)
                 add(4, self.g_cb_arm)
                 add(4, self.g_provoke)
+            add(3, self.g_chain2)
+            add(1, self.g_probe_shift, 'derive_bits')
             if prop == 'C02':
                 add(4, self.g_shallow)
                 add(3, self.g_big_store)
@@ -1197,6 +1233,8 @@ class Gen(object):
             add(1, self.g_like)
             add(1, self.g_deepcopy)
             add(2, self.g_big_store)
+            add(2, self.g_chain2)
+            add(1, self.g_probe_bigstore_then_convert)
             if p.p_register > 0:
                 add(int(10 * p.p_register) + 1, self.g_register_set, 'registers')
             if p.p_cb > 0:
@@ -1222,6 +1260,8 @@ class Gen(object):
             add(3, lambda: self.g_config_set(['overflow', 'rounding']))
             add(2, self.g_call)
             add(1, self.g_big_store)     # sources that went through the Python-integer store path
+            add(1, self.g_probe_bigstore_then_convert)
+            add(2, self.g_chain2)
             add(1, self.g_deepcopy)
             add(1, self.g_drop)
             if 'F5' in F:
@@ -1299,6 +1339,54 @@ class Gen(object):
         return {'op': 'setitem', 'slot': ks, 'index': [r.randrange(n) for n in sh] if len(sh) > 1 else r.randrange(sh[0]),
                 'val': val}
 
+    # ------------------------------------------------------------------ macro sequences
+    def on_last(self, fn, fix=None):
+        """Queue generator `fn` for the next step, acting on the object the coming step produces or
+        writes (its first pick() is forced to that slot); `fix` may adjust the op it generates."""
+        def follow():
+            self.force = self.hot[0] if self.hot else None
+            op = fn()
+            self.force = None
+            if fix is not None:
+                op = fix(op) or op
+            return op
+        self.queue.append(follow)
+
+    def g_probe_shift(self):
+        """A single-bit code at the top of a wide word, then a left shift that has to grow the word."""
+        r = self.rng
+        nw = r.randint(47, 52)
+        signed = r.random() < 0.4
+        fmt = [signed, nw, r.choice([0, r.randint(0, nw)])]
+        k = nw - 1 - (1 if signed else 0) - r.choice([0, 0, 0, 1])
+        op = {'op': 'new', 'val': ['i', 1 << k], 'fmt': fmt, 'kw': self.modes(), 'raw': True}
+        if r.random() < 0.3:
+            op['val'] = ['l', [['i', r.randint(0, 3)], ['i', 1 << k]]]
+
+        def fix(sh):
+            if sh.get('op') == 'shift':
+                sh['dir'] = 'l'
+                sh['n'] = r.choice([1, 1, 2, 3, 52 - nw + 1, max(1, 52 - nw)])
+            return sh
+        self.on_last(self.g_shift, fix)
+        return op
+
+    def g_probe_bigstore_then_convert(self):
+        """A store that needed Python integers, then that object as the source of a conversion."""
+        op = self.g_big_store()
+        self.on_last(lambda: self.g_new_from(), None)
+        return op
+
+    def g_chain2(self):
+        """Two ordinary steps in a row on the same object."""
+        t = getattr(self, '_table', None) or self.table()
+        fns = [fn for _, fn in t if getattr(fn, '__name__', '') not in ('g_chain2', 'g_probe_shift',
+                                                                          'g_probe_bigstore_then_convert')]
+        a, b = self.rng.choice(fns), self.rng.choice(fns)
+        op = a()
+        self.on_last(b)
+        return op
+
     def g_sort_inplace(self):
         k, _ = self.pick(lambda o: self.is_arr(o) and self.is_real(o))
         if k is None:
@@ -1324,8 +1412,12 @@ class Gen(object):
             return {'op': 'new', 'val': ['i', 1], 'fmt': [True, 8, 2], 'kw': {}}
 
     def _draw_op(self):
+        self.force = None
         if not self.cands():
+            self.queue = []
             return self.g_new()
+        if self.queue:
+            return self.queue.pop(0)()
         t = getattr(self, '_table', None)
         if t is None:
             t = self._table = self.table()
